@@ -122,6 +122,7 @@ func c16Run(w *c16World, sc c16Scenario, sched *c16Sched, choices []int) (word [
 	resps = make([]*verifResp, n)
 	started := make([]bool, n)
 	done := make([]bool, n)
+	parked := make([]bool, n)
 	sched.mu.Lock()
 	sched.active = true
 	sched.events = make(chan c16Event, 16)
@@ -166,16 +167,79 @@ func c16Run(w *c16World, sc c16Scenario, sched *c16Sched, choices []int) (word [
 		} else {
 			sched.release[pick] <- struct{}{}
 		}
+		stepWait := 60 * time.Second
+		anyParked := false
+		for i := 0; i < n; i++ {
+			if parked[i] && i != pick {
+				anyParked = true
+			}
+		}
+		if anyParked {
+			// the picked request may be waiting for something a parked request holds (a per-user lock taken before the
+			// load): then this interleaving is one the program cannot have
+			stepWait = 5 * time.Second
+		}
+		parked[pick] = false
 		select {
 		case ev := <-sched.events:
 			if ev.kind == "done" {
 				done[ev.req] = true
 				ops = append(ops, fmt.Sprintf("%d:done", ev.req))
 			} else {
+				parked[ev.req] = true
 				ops = append(ops, fmt.Sprintf("%d:%s", ev.req, ev.op))
 			}
-		case <-time.After(60 * time.Second):
-			return word, enabledAt, resps, ops, false
+		case <-time.After(stepWait):
+			if !anyParked {
+				return word, enabledAt, resps, ops, false
+			}
+			// infeasible prefix: stop steering, let every parked request go and the run finish by itself (it is still
+			// a real execution and is judged like any other); the explorer backtracks over the prefix as usual
+			ops = append(ops, fmt.Sprintf("%d:waits-for-a-parked-request(free-running-from-here)", pick))
+			w.rep.Count("schedules_with_infeasible_step", 1)
+			sched.mu.Lock()
+			sched.active = false
+			sched.mu.Unlock()
+			for i := 0; i < n; i++ {
+				if parked[i] {
+					parked[i] = false
+					sched.release[i] <- struct{}{}
+				}
+			}
+			for i := 0; i < n; i++ {
+				if !started[i] {
+					started[i] = true
+					go func(i int) {
+						r := w.env.Do(reqs[i].Build())
+						resps[i] = r
+						sched.events <- c16Event{i, "done", ""}
+					}(i)
+				}
+			}
+			deadline := time.After(60 * time.Second)
+			for {
+				all := true
+				for i := 0; i < n; i++ {
+					if !done[i] {
+						all = false
+					}
+				}
+				if all {
+					return word, enabledAt, resps, ops, true
+				}
+				select {
+				case ev := <-sched.events:
+					if ev.kind == "done" {
+						done[ev.req] = true
+						ops = append(ops, fmt.Sprintf("%d:done", ev.req))
+					} else {
+						// a request that reached its gate just before steering stopped
+						sched.release[ev.req] <- struct{}{}
+					}
+				case <-deadline:
+					return word, enabledAt, resps, ops, false
+				}
+			}
 		}
 	}
 	return word, enabledAt, resps, ops, true
